@@ -5,7 +5,7 @@ From VMQ Require Import model.Inbound.
 Open Scope N_scope.
 
 Record stepobs := mkStep { responses : list (N * N * N); forwards : list N; closed : bool }.
-Record case := mkCase { v5 : bool; rm : Z; evs : list ev; steps : list stepobs; ran : bool }.
+Record case := mkCase { v5 : bool; rm : Z; evs : list ev; steps : list stepobs; ran : bool; pipelined : bool }.
 
 Definition rcode (v5 : bool) (r : reason) : N :=
   if v5 then match r with RSuccess => 0 | RNotAuthorized => 135 | RIdInUse => 145 | RIdNotFound => 146 end else 0.
@@ -48,7 +48,24 @@ Fixpoint check (v5 : bool) (s : inb) (es : list ev) (ss : list stepobs) : bool :
   | _, _ => false
   end.
 
-Definition case_ok (c : case) : bool := ran c && check (v5 c) (init (rm c)) (evs c) (steps c).
+(* pipelined: all packets of the case were written back-to-back in one go to a connection whose client was not reading
+   (the broker's writer lags behind its reader); the single observed step holds every response in wire order *)
+Fixpoint run_all (s : inb) (es : list ev) : list iout :=
+  match es with
+  | [] => []
+  | e :: r => let '(s1, o) := step s e in if existsb is_term o then o else o ++ run_all s1 r
+  end.
+Definition check_pipe (v5 : bool) (s : inb) (es : list ev) (ss : list stepobs) : bool :=
+  match ss with
+  | [so] => let o := run_all s es in
+            list_eqb trip_eqb (flat_map (wire v5) o) (responses so)
+            && list_eqb N.eqb (sort (flat_map fwd o)) (forwards so)
+            && Bool.eqb (existsb is_term o) (closed so)
+  | _ => false
+  end.
+
+Definition case_ok (c : case) : bool :=
+  ran c && (if pipelined c then check_pipe (v5 c) (init (rm c)) (evs c) (steps c) else check (v5 c) (init (rm c)) (evs c) (steps c)).
 
 Fixpoint mismatches_from (i : nat) (cs : list case) : list nat :=
   match cs with
